@@ -566,3 +566,45 @@ func rulePanicFlag(c *Ctx) {
 			fmt.Sprintf("the flag that turns unprefixed lines into Error records is not set exactly by `panic:` lines and cleared by every other recognised line (set=%v/%d reset=%v/%d clearedByJSON=%v): lines after a panic trace keep being logged as errors", okSet, nSet, okReset, nReset, okJSON), nil)
 	}
 }
+
+// ---------- the context given to runner.Kill never expires ----------
+
+func ruleKillCtx(c *Ctx) {
+	p := c.P
+	n := 0
+	for _, f := range p.Funcs {
+		if !notTesting(p, f) {
+			continue
+		}
+		for _, call := range f.Calls() {
+			if p.CalleeName(f, call) != modPath+"/runner.AttachedRunner.Kill" || len(call.Args) != 1 {
+				continue
+			}
+			n++
+			org := p.ctxOrigin(f, call.Args[0])
+			if org == "" || org == "?" {
+				// a variable of an enclosing function
+				for q := f.Parent; q != nil && (org == "" || org == "?" || strings.HasPrefix(org, "parameter")); q = q.Parent {
+					org = p.ctxOrigin(q, call.Args[0])
+				}
+			}
+			if strings.HasPrefix(org, "parameter") && f.Parent != nil {
+				for q := f.Parent; q != nil; q = q.Parent {
+					if o2 := p.ctxOrigin(q, call.Args[0]); !strings.HasPrefix(o2, "parameter") && o2 != "?" {
+						org = o2
+					}
+				}
+			}
+			construct := "context of runner.Kill"
+			if org == "context.Background" || org == "context.TODO" {
+				c.R.Hold("R-EXIT/killctx", p.Pos(call), f.Name, construct, "context.Background(): the kill request cannot be pre-empted by an expired deadline", true)
+			} else {
+				c.R.Violate("R-EXIT/killctx", p.Pos(call), f.Name, construct,
+					"the plugin is killed with a context that can already be cancelled or expired (origin: "+org+"): a runner that honours its context refuses the kill, e.g. after a start timeout, and the process is left running", nil)
+			}
+		}
+	}
+	if n < 2 {
+		c.R.Undecided("R-EXIT/killctx", "", "instance-floor", fmt.Sprintf("only %d runner.Kill calls found, 2 expected (Start's cleanup, Client.Kill)", n))
+	}
+}
